@@ -75,6 +75,16 @@ def gen(rng, knobs):
                 ev = h.replaceable()
             elif c < 0.50 and h.events:
                 ev = h.deletion()
+                if rng.random() < 0.35:
+                    # NIP-01-valid deletions whose e tags are not all usable references
+                    extra = rng.choice([[["e", "not-a-hex-id"]], [["e"]], [["e", "abc"]], [["e", ""]],
+                                        [["e", ev["tags"][0][1].upper()]] if ev["tags"] else [["e"]]])
+                    tags = [t for t in ev["tags"]]
+                    tags.insert(rng.randint(0, len(tags)), extra[0])
+                    h.events.pop()
+                    ev = evgen.make([k.pub for k in evgen.AUTHORS].index(ev["pubkey"]), kind=5,
+                                    created_at=ev["created_at"], tags=tags, content="del")
+                    h.events.append(ev)
             elif c < 0.55:
                 ev = h.ephemeral()
             elif c < 0.65 and good:
